@@ -32,6 +32,9 @@ LISTKEYS = ["items", "rows"]
 #   ("setidxobj", key, i, Obj)   cfg.key[i] = other                              ("insertobj", key, i, Obj)  cfg.key.insert(i, other)
 #   ("again", kind, key, i, ops) the object offered last was NOT taken (refused, or the walk failed): the caller still holds it,
 #                                applies `ops` to it through its own reference and offers that very object again by `kind`
+#   ("moveobj", kind, key, i, from)  the configuration found at path `from` below the ROOT (an item of another list over the same
+#                                item schema) is offered as it is by `kind`; generated as the LAST step of a history only (an
+#                                accepted offer leaves one object in two lists)
 #   ("alias", steps, op)         `op` applied through the reference the caller kept to the object handed over last; `steps` is
 #                                where the model finds that object below the addressed configuration (first step) and the rest
 #                                of the way to the configuration `op` addresses inside it
@@ -84,7 +87,7 @@ def rleaf(rng, allow_flag=False):
         return {"t": "leaf", "kind": ("int", lo, hi), "required": required, "default": dflt, "callable": call,
                 "sensitive": sensitive}
     if r < 0.72:
-        mn = rng.choice([None, None, 1, 3])
+        mn = rng.choice([None, None, 1, 3, 0])
         mx = rng.choice([None, None, 8, 5])
         lower = rng.random() < 0.4
         strip = rng.random() < 0.4
@@ -101,7 +104,7 @@ def rleaf(rng, allow_flag=False):
 REJECTS = {"int": [0, 13, 15], "str": ["", "nope", "abc"], "bool": [False], "flag": [], "any": []}
 
 
-def rfields(rng, depth, vt, allow_flag=False):
+def rfields(rng, depth, vt, allow_flag=False, share=False):
     fields = []
     keys = rng.sample(KEYS, rng.randint(1, 4))
     for k in keys:
@@ -116,7 +119,7 @@ def rfields(rng, depth, vt, allow_flag=False):
         fields.append((k, nd))
     if depth > 0:
         for k in rng.sample(SUBKEYS, rng.choice([0, 1, 1, 2])):
-            sub_fields = rfields(rng, depth - 1, vt, allow_flag=True)
+            sub_fields = rfields(rng, depth - 1, vt, allow_flag=True, share=share)
             fields.append((k, {"t": "sub", "dyn": rng.random() < 0.15, "vals": rvals(rng, sub_fields, vt), "fields": sub_fields,
                                "ct": rng.random() < 0.3}))
         for k in rng.sample(LISTKEYS, rng.choice([0, 0, 1])):
@@ -127,6 +130,16 @@ def rfields(rng, depth, vt, allow_flag=False):
                 nd["default"] = rdefault_items(rng, item_fields, vt, nd["vals"])
             fields.append((k, nd))
     rng.shuffle(fields)
+    if share:
+        # a second list over the SAME item schema object (schema.a = ListField(item); schema.b = ListField(item)): items can be
+        # offered from one to the other
+        lists = [(k, nd) for k, nd in fields if nd["t"] == "cfglist"]
+        if len(lists) == 1 and rng.random() < 0.5:
+            k, nd = lists[0]
+            k2 = [x for x in LISTKEYS if x != k][0]
+            twin = dict(nd, required=False, same_as_sibling=k)
+            twin.pop("default", None)
+            fields.append((k2, twin))
     return fields
 
 
@@ -410,7 +423,9 @@ EMPHASIS = {
     "C11": {"set": 0.2, "load": 0.35, "reset": 0.03, "validate": 0.2, "loads": 0.08, "obj": 0.08},
 }
 FORMATS = ["json", "yaml", "bson", "pickle", "xml"]
-DAMAGE = ["none", "none", "truncate", "empty", "garbage", "wrongroot", "truncate3"]
+DAMAGE = ["none", "none", "truncate", "empty", "garbage", "wrongroot", "truncate3", "pairs", "pairsjunk", "pairs1"]
+PAIR_DAMAGE = ("pairs", "pairsjunk", "pairs1", "pairstuple", "emptylist")
+MISSING_INCLUDE = "/nonexistent/cinco-verif-missing-include"      # never exists
 
 
 def doc_tree_ok(t):
@@ -440,7 +455,7 @@ def rcase(rng, prop, nops, objs=False):
     """objs: also hand over configuration objects (operations, constructor keywords); the streams that borrow this generator
     for other purposes (mask, roundtrip) keep the plain alphabet"""
     vt = []
-    fields = rfields(rng, rng.choice([0, 1, 2, 2, 3]), vt)
+    fields = rfields(rng, rng.choice([0, 1, 2, 2, 3]), vt, share=objs)
     root_dyn = rng.random() < 0.15
     root_vals = rvals(rng, fields, vt)
     kw = {}
@@ -473,6 +488,18 @@ def rcase(rng, prop, nops, objs=False):
             nd = dict(fields)[op[1][1]]
             ips, iop = rop(rng, nd["fields"], nd["dyn"], DETACHED)
             ops.append(((), ("alias", [("key", op[1][1])] + list(ips), iop)))
+    twins = [(k, nd) for k, nd in fields if nd["t"] == "cfglist" and nd.get("same_as_sibling")]
+    if objs and twins and rng.random() < 0.7:
+        # last step: an item of one list is offered to its twin (either direction), often after it was edited in place
+        k2, nd = rng.choice(twins)
+        a, b = (nd["same_as_sibling"], k2) if rng.random() < 0.5 else (k2, nd["same_as_sibling"])
+        j = rng.choice([0, 0, 1, 2])
+        if rng.random() < 0.6:
+            ips, iop = rop(rng, nd["fields"], False, DETACHED)
+            ops.append(((("item", a, j),) + tuple(ips), iop))
+        kind = rng.choice(OBJ_KINDS[1:])
+        ops.append(((), ("moveobj", kind, b, None if kind == "appendobj" else rng.choice([0, 1, -1, 5]) if kind == "insertobj" else rng.choice([0, 1, 5]),
+                         (("item", a, j),))))
     return {"vt": vt, "dyn": root_dyn, "vals": root_vals, "fields": fields, "kw": kw, "ops": ops}
 
 
@@ -720,6 +747,70 @@ def matrix_cases():
     for kwd in ({"items": [{"n": 5}]}, {"rows": [{"n": 1}, {"n": 2}], "sub": {"a": 3}}, {"none": []}, {"sub": Obj(("sub",), [])},
                 {"sub": {"lst": [{"t": "k"}]}}, {"n": 9}):
         cases.append(dict(base_d, kw=kwd, ops=[((), ("validate", True)), ((), ("reset", "items")), ((), ("reset", "sub"))], kind="matrix-ctor"))
+    # ---- an item that lives in one list offered to another list over the same item schema (always the last step) ----
+    fields_m = [("a", {"t": "cfglist", "required": False, "vals": [], "fields": item}),
+                ("b", {"t": "cfglist", "required": False, "vals": [], "fields": item, "same_as": ("a",)}),
+                ("sub", {"t": "sub", "dyn": False, "vals": [], "fields": [
+                    ("x", {"t": "leaf", "kind": ("int", None, None), "required": False, "default": 1, "callable": False, "sensitive": False}),
+                    ("c", {"t": "cfglist", "required": True, "vals": [], "fields": item, "same_as": ("a",)})]})]
+    base_m = {"vt": [], "dyn": False, "vals": [], "fields": fields_m}
+    kw_m = {"a": [{"n": 1}, {"n": 2, "s": "two"}], "b": [{"n": 3}], "sub": {"c": [{"n": 4}]}}
+    breaks = [[], [(I("a", 0), ("reset", "n"))], [(I("a", 0), ("load", {"n": None}, False))], [(I("a", 1), ("reset", "n")), (I("a", 0), ("set", "s", "zz", "attr"))]]
+    for brk in breaks:
+        for j in (0, 1, 7):
+            for kind, i in (("appendobj", None), ("insertobj", 0), ("insertobj", -1), ("setidxobj", 0), ("setidxobj", 5)):
+                cases.append(dict(base_m, kw=kw_m, ops=brk + [((), ("moveobj", kind, "b", i, I("a", j)))], kind="matrix-move"))
+            cases.append(dict(base_m, kw=kw_m, ops=brk + [(K("sub"), ("moveobj", "appendobj", "c", None, I("a", j)))], kind="matrix-move"))
+            cases.append(dict(base_m, kw=kw_m, ops=brk + [(K("sub"), ("moveobj", "setidxobj", "c", 0, I("a", j)))], kind="matrix-move"))
+    for brk in ([], [(K("sub") + I("c", 0), ("reset", "n"))]):
+        for kind, i in (("appendobj", None), ("insertobj", 1), ("setidxobj", 1)):
+            cases.append(dict(base_m, kw=kw_m, ops=brk + [((), ("moveobj", kind, "a", i, K("sub") + I("c", 0)))], kind="matrix-move"))
+            cases.append(dict(base_m, kw=kw_m, ops=brk + [((), ("moveobj", kind, "b", i, K("sub") + I("c", 0)))], kind="matrix-move"))
+    cases.append(dict(base_m, kw={"a": [{"n": 1}]}, ops=[(I("a", 0), ("reset", "n")), ((), ("moveobj", "appendobj", "b", None, I("a", 0)))], kind="matrix-move"))
+    # ---- documents that parse and are refused as a whole before load_tree starts: an include that cannot be resolved; a root
+    #      that is a sequence of key/value pairs.  Dynamic roots with run-time keys set before the load. ----
+    fields_i = [("n", {"t": "leaf", "kind": ("int", 1, 100), "required": False, "default": 3, "callable": False, "sensitive": False}),
+                ("inc", {"t": "leaf", "kind": ("include",), "required": False, "default": None, "callable": False, "sensitive": False}),
+                ("s", {"t": "leaf", "kind": ("str", None, 6, False, False), "required": False, "default": "dflt", "callable": False, "sensitive": False})]
+    fields_flat = [fields_i[0], fields_i[2]]
+    pre_dyn = [[], [((), ("set", "extra", 1, "attr"))], [((), ("set", "extra", 1, "attr")), ((), ("set", "nokey", "v", "dotted")), ((), ("set", "n", 9, "attr"))],
+               [((), ("load", {"zz": [1], "s": "w"}, True))]]
+    for fmt in FORMATS:
+        for pre in pre_dyn:
+            for tree in ({"n": 8}, {"n": 8, "extra": 2}, {}):
+                cases.append({"vt": [], "dyn": True, "vals": [], "fields": fields_i, "kw": {}, "kind": "matrix-inc",
+                              "ops": pre + [((), ("loads", fmt, tree, "badinclude")), ((), ("validate", True))]})
+        cases.append({"vt": [], "dyn": False, "vals": [], "fields": fields_i, "kw": {"n": 5}, "kind": "matrix-inc",
+                      "ops": [((), ("loads", fmt, {"n": 8, "s": "x"}, "badinclude")), ((), ("loads", fmt, {"n": 8, "s": "x"}, "none"))]})
+    for fmt in ("json", "yaml", "pickle"):
+        for dmg in PAIR_DAMAGE:
+            if fmt != "pickle" and dmg == "pairstuple":
+                continue
+            for dyn in (False, True):
+                for pre in ([], [((), ("set", "n", 5, "attr"))]) + (([((), ("set", "extra", 1, "attr"))],) if dyn else ()):
+                    for tree in ({"n": 9}, {"n": 9, "s": "zz"}, {"s": "ok", "n": 500}):
+                        cases.append({"vt": [], "dyn": dyn, "vals": [], "fields": fields_flat, "kw": {}, "kind": "matrix-pairs",
+                                      "ops": pre + [((), ("loads", fmt, tree, dmg)), ((), ("validate", True))]})
+    # ---- required strings: "not empty", whatever min_len says (0, 1, none), assigned / loaded / defaulted, with and without strip ----
+    def _rs(mn, strip, dflt):
+        return {"t": "leaf", "kind": ("str", mn, None, False, strip), "required": True, "default": dflt, "callable": False, "sensitive": False}
+    fields_r = [("r0", _rs(0, False, "x")), ("r0s", _rs(0, True, "x")), ("r1", _rs(1, True, "x")), ("rn", _rs(None, True, "x")),
+                ("sub", {"t": "sub", "dyn": False, "vals": [], "fields": [("q", _rs(0, True, None))]})]
+    base_r = {"vt": [], "dyn": False, "vals": [], "fields": fields_r}
+    for key in ("r0", "r0s", "r1", "rn"):
+        for val in ("", "  ", " a ", None):
+            cases.append(dict(base_r, kw={"sub": {"q": "v"}}, ops=[((), ("set", key, val, "attr")), ((), ("validate", False))], kind="matrix-req"))
+            cases.append(dict(base_r, kw={"sub": {"q": "v"}}, ops=[((), ("load", {key: val}, True)), ((), ("validate", True))], kind="matrix-req"))
+            cases.append(dict(base_r, kw={"sub": {"q": "v"}}, ops=[((), ("loads", "json", {key: val}, "none")), ((), ("validate", False))], kind="matrix-req"))
+            cases.append(dict(base_r, kw={key: val, "sub": {"q": "v"}}, ops=[((), ("validate", False))], kind="matrix-req"))
+    for val in ("", "   ", "v"):
+        cases.append(dict(base_r, kw={}, ops=[(K("sub"), ("set", "q", val, "dotted")), ((), ("validate", False)), ((), ("load", {}, True))], kind="matrix-req"))
+        cases.append(dict(base_r, kw={}, ops=[((), ("set", "sub", {"q": val}, "attr")), ((), ("validate", True))], kind="matrix-req"))
+    for dflt in ("", "x"):      # a declared default "" for a required string: the fresh configuration must not validate
+        fl = [("d0", _rs(0, False, dflt)), ("dn", _rs(None, False, "x"))]
+        for tail in ([((), ("validate", False))], [((), ("validate", True))], [((), ("load", {}, True))], [((), ("loads", "yaml", {"dn": "y"}, "none"))],
+                     [((), ("set", "d0", "ok", "attr")), ((), ("reset", "d0")), ((), ("validate", False))]):
+            cases.append({"vt": [], "dyn": False, "vals": [], "fields": fl, "kw": {}, "ops": list(tail), "kind": "matrix-req"})
     kw2 = {"items": [{"n": 1}, {"n": 2, "s": "two"}]}
     for i, o in enumerate(obj_ops):
         cases.append(dict(base, kw={}, ops=[o], kind="matrix-obj"))
@@ -782,6 +873,9 @@ def matrix_cases():
     return cases, ops, base
 
 
+THIN = {"matrix-dyn": 3, "matrix-dflt2": 2, "matrix-obj2": 2, "matrix-objb": 2, "matrix2b": 2, "matrix-pairs": 2}
+
+
 def matrix_pairs(ops, base, stride, offset):
     cases = []
     for idx, (o1, o2) in enumerate(itertools.product(ops, repeat=2)):
@@ -794,7 +888,20 @@ def generate_for(prop, rng, tier):
     cases, ops, base = matrix_cases()
     # ordered pairs: a slice per run in the quick tier (the seed picks it), all of them in the thorough tier
     if tier == "quick":
-        cases += matrix_pairs(ops, base, 8, rng.randrange(8))
+        # the families made of ordered pairs / triples of operations are thinned the same way (every single operation, every
+        # clause-specific family -- move, inc, pairs-root, req, again, alias, ctor -- and the [operation, validation] pairs stay whole)
+        pick = rng.randrange(48)
+        seen = {}
+        kept = []
+        for c in cases:
+            n = THIN.get(c["kind"], 1)
+            if n > 1 and c["kind"] in ("matrix-obj2", "matrix-objb") and len(c["ops"]) < 3:
+                n = 1
+            i = seen[c["kind"]] = seen.get(c["kind"], -1) + 1
+            if n == 1 or i % n == pick % n:
+                kept.append(c)
+        cases = kept
+        cases += matrix_pairs(ops, base, 20, rng.randrange(20))
     else:
         cases += matrix_pairs(ops, base, 1, 0)
     n = 500 if tier == "quick" else 8000
@@ -832,7 +939,11 @@ def g_optnat(v):
 
 def g_leaf(nd):
     k = nd["kind"]
-    if k[0] == "int":
+    if k[0] == "include":
+        # an IncludeField: a file name that is only ever read by the include step of `loads`; to the configuration state machine it
+        # is an optional string leaf that nothing here assigns (Schema._validate skips it)
+        kind = "(LStr None None false false)"
+    elif k[0] == "int":
         kind = "(LInt %s %s)" % (g_optz(k[1]), g_optz(k[2]))
     elif k[0] == "str":
         kind = "(LStr %s %s %s %s)" % (g_optnat(k[1]), g_optnat(k[2]), g_bool(k[3]), g_bool(k[4]))
@@ -888,6 +999,8 @@ def g_op(o):
         parsed = parse_direct(o[1], make_document(o[1], o[2], o[3]), o[2])
         if parsed[0] == "ok":
             return "(CLoads (Ok %s))" % gal(parsed[1])
+        if isinstance(parsed[1], tuple):
+            return "(CLoads (Err (EValidation %s)))" % g_str(parsed[1][1])
         return "(CLoads (Err %s))" % {"value": "EValue", "type": "EType", "key": "EKey", "index": "EIndex", "attribute": "EAttribute",
                                       "unicode": "EUnicode", "overflow": "EOverflow", "os": "EOS"}.get(parsed[1], "EOtherExn")
     raise Broken("bad op %r" % (o,))
@@ -929,6 +1042,8 @@ def g_route(kind, i):
 
 def g_pop(po, fields, gf=None):
     ps, o = po
+    if o[0] == "moveobj":
+        return "(%s,(XFrom %s %s %s))" % (g_ps(ps), g_route(o[1], o[3]), g_str(o[2]), g_ps(o[4]))
     if o[0] == "again":
         dops = g_list(o[4], lambda q: "(%s,%s)" % (g_ps(q[0]), g_op(q[1])))
         return "(%s,(XAgain %s %s %s))" % (g_ps(ps), g_route(o[1], o[3]), g_str(o[2]), dops)
@@ -965,6 +1080,21 @@ def _xml_value(k, v):
 def make_document(fmt, tree, damage):
     import json as _json
     import pickle as _pickle
+    if damage in PAIR_DAMAGE:
+        # a root that is not a map but LOOKS like one to dict.update: key/value pairs naming the fields of the tree, maybe junk after
+        pairs = [[k, v] for k, v in tree.items()]
+        root = {"pairs": pairs, "pairsjunk": pairs + [7], "pairs1": pairs[:1], "pairstuple": tuple(tuple(p) for p in pairs),
+                "emptylist": []}[damage]
+        if fmt == "json":
+            return _json.dumps(root).encode()
+        if fmt == "yaml":
+            import yaml
+            return yaml.safe_dump(untuple(root), sort_keys=False).encode()
+        if fmt == "pickle":
+            return _pickle.dumps(root)
+        damage = "garbage"          # bson / xml cannot carry such a root
+    if damage == "badinclude":
+        tree = dict(tree, inc=MISSING_INCLUDE + "." + fmt)
     if fmt == "json":
         doc = _json.dumps(tree).encode()
     elif fmt == "yaml":
@@ -1010,10 +1140,21 @@ def parse_direct(fmt, doc, tree):
             if root.tag != "config":
                 return ("err", "value")
             t = tree          # an undamaged document of the documented layout (the codec itself is C04's)
+            if root.find("inc") is not None and "inc" not in t:
+                t = dict(t, inc=root.find("inc").text)
     except Exception as e:  # noqa
         return ("err", errkind(e))
+    if isinstance(t, (list, tuple)):
+        # a root that is a sequence: the code reads a document's root as a map (`tree.get`, `tree.items`) before it writes anything
+        return ("err", "attribute")
     if not isinstance(t, dict):
         return ("err", "notamap")       # a document whose root is not a map: not a declared field's value, never generated on purpose
+    if isinstance(t.get("inc"), str) and t["inc"].startswith(MISSING_INCLUDE):
+        # the schemas that declare `inc` declare it as an IncludeField at the root: the named file does not exist, the include step
+        # refuses the whole document before load_tree starts
+        import os as _os
+        if not _os.path.exists(t["inc"]):
+            return ("err", ("validation", "inc"))
     return ("ok", t)
 
 
@@ -1069,6 +1210,9 @@ class Built:
                         raise ValueError("the field's validator refuses this value")
                     return value
                 kw["validator"] = field_validator
+            if k[0] == "include":
+                from cincoconfig import IncludeField
+                return IncludeField()
             if k[0] == "int":
                 return IntField(min=k[1], max=k[2], **kw)
             if k[0] == "str":
@@ -1092,10 +1236,18 @@ class Built:
                     s._add_field(k, sub)
                     self.makers[sp + (k,)] = sub          # schema.sub() / the configuration type: CT()
                 else:
-                    item = mk_schema(nd["fields"], False, nd["vals"], sp + (k,))
-                    if nd.get("ct"):
-                        self.ntypes += 1
-                        item = make_type(item, "IT%d" % self.ntypes)
+                    twin = nd.get("same_as") or (sp + (nd["same_as_sibling"],) if nd.get("same_as_sibling") else None)
+                    if twin is not None:
+                        twin = tuple(twin)
+                        item = self.makers[twin]              # the very same item schema object as that list (declared before)
+                        for key, mk in list(self.makers.items()):
+                            if key[:len(twin)] == twin and len(key) > len(twin):
+                                self.makers[sp + (k,) + key[len(twin):]] = mk
+                    else:
+                        item = mk_schema(nd["fields"], False, nd["vals"], sp + (k,))
+                        if nd.get("ct"):
+                            self.ntypes += 1
+                            item = make_type(item, "IT%d" % self.ntypes)
                     lkw = {}
                     if nd.get("default") is not None:
                         maps = copy.deepcopy(nd["default"]["maps"])
@@ -1206,11 +1358,19 @@ def make_kw(b, c):
     return {k: (build_detached(b, v) if isinstance(v, Obj) else copy.deepcopy(v)) for k, v in c["kw"].items()}
 
 
+HANDED = [None]         # the configuration object the last hand-over of any kind offered
 KEPT = [None]           # the object offered last, as long as the caller is the only one holding it (it was not taken)
 
 
 def apply_op(root, ps, o):
     """returns the outcome; mirrors exactly what a user would write"""
+    if o[0] == "moveobj":
+        obj = navigate(root, o[4])
+        if obj is None or navigate(root, ps) is None:
+            return "nav"
+        HANDED[0] = obj
+        norm = (o[1], o[2], None) if o[1] == "appendobj" else (o[1], o[2], o[3], None)
+        return _apply_op(root, ps, norm, obj)
     if o[0] == "again":
         obj = KEPT[0]
         if obj is None:
@@ -1226,6 +1386,7 @@ def apply_op(root, ps, o):
     else:
         return _apply_op(root, ps, o, None)
     LAST_OBJ[0] = obj
+    HANDED[0] = obj
     KEPT[0] = None if out == "ok" else obj
     return out
 
@@ -1318,6 +1479,9 @@ def impl(c):
             in_tree = LAST_OBJ[0] is not None and navigate(root, tuple(ps) + (o[1][0],)) is LAST_OBJ[0]
             alias_out = apply_op(root, ps, o)
             ps, o = tuple(ps) + tuple(o[1]), o[2]
+        moved = o[0] == "moveobj"
+        if moved:
+            o = (o[1], o[2], None) if o[1] == "appendobj" else (o[1], o[2], o[3], None)
         again = o[0] == "again"
         if again:
             # for the oracles: the underlying hand-over (the recipe of the object is not needed there)
@@ -1326,11 +1490,11 @@ def impl(c):
         tpath = None
         if target is not None:
             tpath = [p for p, obj in walk_cfgs(root) if obj is target][0]
-        out = alias_out if via_alias else apply_op(root, ps, c["ops"][len(trace)][1] if again else o)
+        out = alias_out if via_alias else apply_op(root, ps, c["ops"][len(trace)][1] if (again or moved) else o)
         stored = None
         if o[0] in OBJ_KINDS and out == "ok" and target is not None:
             held = target._data.get(o[1])
-            stored = (held is LAST_OBJ[0]) if o[0] == "setobj" else any(it is LAST_OBJ[0] for it in held)
+            stored = (held is HANDED[0]) if o[0] == "setobj" else any(it is HANDED[0] for it in held)
         after = walk_cfgs(root)
         keep += [obj for _, obj in after]
         ids = {p: id(obj) for p, obj in after}
@@ -1381,7 +1545,7 @@ def impl(c):
                         readback.append("reading %s by %s yields %r, the configuration holds %r" % (pjoin(pth, key), how, got, held_v))
         trace.append({"ps": ps, "op": o, "out": out, "before": prev, "after": snap, "same": same, "tpath": tpath, "readback": readback,
                       "vlog": list(b.validator_log), "both": both, "defined_api": defined_api, "text": LAST_TEXT[0],
-                      "stored": stored, "alias": via_alias, "in_tree": in_tree, "again": again})
+                      "stored": stored, "alias": via_alias, "in_tree": in_tree, "again": again, "moved": moved})
         steps.append((out if not (isinstance(out, tuple) and out[0] == "err") else ("err", out[1]), snap, same))
         before_ids = ids
         prev = snap
@@ -1556,9 +1720,16 @@ def oracle_for(prop, c, obs):
         if prop == "C06":
             if is_err and o[0] == "loads" and parse_direct(o[1], make_document(o[1], o[2], o[3]), o[2])[0] == "err":
                 if canon_snap(before) != canon_snap(after) or not all(st["same"].values()):
-                    bad.append("a %s document that does not parse (%s) changed the configuration" % (o[1], o[3]))
+                    what = ("whose include cannot be resolved" if o[3] == "badinclude" else
+                            "whose root is not a map" if o[3] in PAIR_DAMAGE else "that does not parse")
+                    bad.append("a %s document %s (%s) changed the configuration: values, marks or dynamic fields differ" % (o[1], what, o[3]))
+            if o[0] == "loads" and not is_err and parse_direct(o[1], make_document(o[1], o[2], o[3]), o[2])[0] == "err":
+                bad.append("a %s document that cannot be loaded (%s) was not rejected" % (o[1], o[3]))
             if is_err and o[0] in ("set", "append", "setidx", "insert") + OBJ_KINDS:
                 if canon_snap(before) != canon_snap(after):
+                    if st.get("moved"):
+                        bad.append("rejected %s into list %s of the item at %r (it lives in another list) changed the configuration: the lists are not as they were"
+                                   % (o[0], o[1], c["ops"][len(c["ops"]) - 1][1][4]))
                     bad.append("rejected %s %r changed the configuration" % (o[0], o[1:3]))
                 if not all(st["same"].values()):
                     bad.append("rejected %s %r replaced nested configuration objects: %r" % (o[0], o[1:3], st["same"]))
@@ -1905,6 +2076,8 @@ def tags(c, obs):
         t.add("%s:%s" % (o[0], res))
         if st.get("again"):
             t.add("again:%s" % res)
+        if st.get("moved"):
+            t.add("moved:%s" % res)
         if isinstance(out, tuple) and out[0] == "err":
             k = out[1]
             t.add("err:" + (k[0] if isinstance(k, tuple) else k))
